@@ -211,7 +211,7 @@ def build_region(r):
                 cur, cnt = inline_helper(cur, hname, hbody, hself)
                 if cnt:
                     r.firings.append({"rule": "R-autoinline", "where": "%s::%s" % (path, r.name), "before": "%s ( )" % hname, "after": "( " + " ".join(hbody)[:200] + " )",
-                                      "note": "call of a one-expression helper that is not part of the unit (%s) replaced by its body; exact for a parameterless pure accessor / predicate" % hwhere})
+                                      "note": ("a constant that is not part of the unit (%s) replaced by its literal value" if hself == "const" else "call of a one-expression helper that is not part of the unit (%s) replaced by its body; exact for a parameterless pure accessor / predicate") % hwhere})
             if "@for@" in cont or "nopub" in r.opts:
                 cur = cur[1:]   # trait impl methods carry no visibility
             ann = lex.tokenize(r.body)
@@ -382,7 +382,39 @@ def find_trivial_helper(name, type_hint=None):
     return found[0] if len(found) == 1 else None
 
 
+def find_literal_const(name):
+    """a `const NAME: T = <literal arithmetic>;` item of /repo (not in a test module) -> (file, initialiser tokens).
+    Used to replace a constant that a change introduced by its value (rule R-autoconst)."""
+    import glob
+    found = []
+    for path in sorted(glob.glob(os.path.join(REPO, "src", "**", "*.rs"), recursive=True)):
+        rel = os.path.relpath(path, REPO)
+        try:
+            src = source(rel)
+        except Exception:
+            continue
+        for it in src.items:
+            if it.kind != "const" or it.name != name or it.is_cfg_test():
+                continue
+            toks = list(it.tokens)
+            if "=" not in toks or toks[-1] != ";":
+                continue
+            init = toks[toks.index("=") + 1:-1]
+            if init and all(re.match(r"^(\d[\d_]*(u8|u16|u32|u64|usize|i32|i64)?|[-+*/()])$", t) for t in init):
+                found.append((rel, init))
+    return found[0] if len(found) == 1 else None
+
+
 def inline_helper(toks, name, body, has_self):
+    if has_self == "const":
+        out, n = [], 0
+        for i, t in enumerate(toks):
+            if t == name and not (i > 0 and toks[i - 1] in (".", "::", "const", "let", "fn")):
+                out += ["("] + list(body) + [")"]
+                n += 1
+            else:
+                out.append(t)
+        return out, n
     """replace `recv . name ( )` (recv = self or one identifier) / `name ( )` / `Self :: name ( )` by `( body[self := recv] )`"""
     out, i, n = [], 0, 0
     while i < len(toks):
